@@ -91,19 +91,24 @@ def unit_sigtab(tier, seed):
     return run_verus_unit('sigtab', None, builder=unit_sigtab.build)
 
 
-UNITS = {
-    'sigtab': unit_sigtab,
-    'frame': unit_frame,
-}
+def unit_l0bits(tier, seed):
+    import unit_l0bits
+    return unit_l0bits.run(tier, seed)
+
+
+UNITS = {}
+UNITS['frame'] = unit_frame
+UNITS['sigtab'] = unit_sigtab
+UNITS['l0bits'] = unit_l0bits
 
 # property -> units that carry obligations tagged with it
-PROPERTY_UNITS = {
-    'C03': ['frame'],
-    'C05': ['frame'],
-    'C13': ['frame'],
-    'C06': ['frame'],
-    'C18': ['sigtab'],
-}
+PROPERTY_UNITS = {}
+PROPERTY_UNITS['C03'] = ['frame']
+PROPERTY_UNITS['C05'] = ['frame']
+PROPERTY_UNITS['C06'] = ['frame']
+PROPERTY_UNITS['C13'] = ['frame']
+PROPERTY_UNITS['C18'] = ['sigtab']
+PROPERTY_UNITS['C07'] = ['l0bits']
 
 PROPERTY_LEVEL = {}
 PROPERTY_EXPLANATION = {}
